@@ -4,6 +4,7 @@ CONSTANTS
   Hints = {70000, 512, 1232, 4096}
   Lens = {100, 501, 511, 512, 513, 523, 700, 1221, 1222, 1232, 1233, 1243, 4085, 4096, 4097, 5000, 20000}
   OptLens = {0, 11, 15, 300, 480}
+  ROpts = {"none", "keepalive", "several"}
   QLens = {5, 17, 259}
 SPECIFICATION Spec
 INVARIANT Emit
